@@ -273,7 +273,7 @@ func (p *Program) LinEdgeSuccs(f *ssa.Function, aliases []Alias, wants ...string
 			lf := p.LinFact(ifi.Cond, k == 0, aliases)
 			for _, w := range wants {
 				if lf == w {
-					out = append(out, Loc{succ, 0})
+					out = append(out, Loc{B: succ})
 				}
 			}
 		}
